@@ -41,7 +41,7 @@ impl<F: Float, R: Rng> ParamGuard for FtrlParams<F, R> {
             Err(FtrlError::InvalidL2Ratio(self.0.l2_ratio.to_f32().unwrap()))
         } else if !&self.0.alpha.is_finite() || self.0.alpha.is_negative() {
             Err(FtrlError::InvalidAlpha(self.0.alpha.to_f32().unwrap()))
-        } else if !&self.0.beta.is_finite() || self.0.beta.is_negative() {
+        } else if !&self.0.beta.is_finite() || self.0.beta < F::zero() {
             Err(FtrlError::InvalidBeta(self.0.beta.to_f32().unwrap()))
         } else {
             Ok(&self.0)
